@@ -1789,18 +1789,34 @@ func ruleCacheGetOrCreate(w *World, r *Report) {
 		if !ok {
 			continue
 		}
-		ex, ok := resolveSpill(ct.V).(*ssa.Extract)
-		if !ok || ex.Index != 1 {
+		tv := resolveSpill(ct.V)
+		if ex, ok := tv.(*ssa.Extract); ok && ex.Index == 1 {
+			lk, ok := ex.Tuple.(*ssa.Lookup)
+			if !ok || !lk.CommaOk || !isLocs(lk.X) {
+				continue
+			}
+			n++
+			if ct.TrueWhen == "true" {
+				present[bedge{b, 0}] = true
+			} else if ct.TrueWhen == "false" {
+				present[bedge{b, 1}] = true
+			}
 			continue
 		}
-		lk, ok := ex.Tuple.(*ssa.Lookup)
-		if !ok || !lk.CommaOk || !isLocs(lk.X) {
+		// `cl := locs[name]; if cl != nil`: the entry itself (or the first result of a comma-ok lookup) against nil
+		var lk *ssa.Lookup
+		if l, ok := tv.(*ssa.Lookup); ok && !l.CommaOk {
+			lk = l
+		} else if ex, ok := tv.(*ssa.Extract); ok && ex.Index == 0 {
+			lk, _ = ex.Tuple.(*ssa.Lookup)
+		}
+		if lk == nil || !isLocs(lk.X) {
 			continue
 		}
 		n++
-		if ct.TrueWhen == "true" {
+		if ct.TrueWhen == "nonnil" {
 			present[bedge{b, 0}] = true
-		} else if ct.TrueWhen == "false" {
+		} else if ct.TrueWhen == "nil" {
 			present[bedge{b, 1}] = true
 		}
 	}
@@ -2128,11 +2144,16 @@ func ruleExpTtlConsumed(w *World, r *Report) {
 		return
 	}
 	isDel := func(in ssa.Instruction) bool {
-		c, ok := isBuiltinCall(in, "delete")
-		if !ok || len(c.Call.Args) != 2 || !valueIs(c.Call.Args[0], fact) {
+		// a plain or a deferred delete(fact, "ttl") (a deferred one runs on every return that follows it)
+		c := callOf(in)
+		if c == nil {
 			return false
 		}
-		k, ok := constKey(c.Call.Args[1])
+		bi, ok := c.Value.(*ssa.Builtin)
+		if !ok || bi.Name() != "delete" || len(c.Args) != 2 || !valueIs(c.Args[0], fact) {
+			return false
+		}
+		k, ok := constKey(c.Args[1])
 		return ok && k == "ttl"
 	}
 	if h, path := reach(fn, lk, func(in ssa.Instruction) bool { return isSuccessReturnPS(in) }, isDel, edgeFilterOf(del)); h != nil {
@@ -2177,11 +2198,17 @@ func ruleParentsValue(prop string) ruleFn {
 			return
 		}
 		// every way the value can come about is a make()
+		visiting := map[ssa.Value]bool{}
 		var allMade func(v ssa.Value, d int) (bool, bool)
 		allMade = func(v ssa.Value, d int) (made bool, known bool) {
-			if d > 8 {
+			if d > 12 {
 				return false, false
 			}
+			if visiting[v] {
+				return true, true // a loop-carried value: decided by its other edges
+			}
+			visiting[v] = true
+			defer delete(visiting, v)
 			switch x := v.(type) {
 			case *ssa.MakeSlice:
 				return true, true
